@@ -63,8 +63,8 @@ type dbOp struct {
 type dbCase struct {
 	Peers   []rsPeer `json:"peers"`
 	NoAS4   []bool   `json:"no_as4"`
-	Policy  int      `json:"policy"` // api.AddBmpRequest_MonitoringPolicy: 1 pre, 2 post, 4 local-rib, 5 all
-	Stats   int      `json:"stats"`  // statistics timeout (0 = off)
+	Policy  int      `json:"policy"`   // api.AddBmpRequest_MonitoringPolicy: 1 pre, 2 post, 4 local-rib, 5 all
+	Stats   int      `json:"stats"`    // statistics timeout (0 = off)
 	UpFirst []bool   `json:"up_first"` // per peer: established before the station is added
 	Before  []dbOp   `json:"before"`   // operations before the station is added
 	After   []dbOp   `json:"after"`
@@ -432,12 +432,12 @@ func runDB(t *testing.T) func(c dbCase, st *verifkit.Stats) *verifkit.Failure {
 			sc.Buffer(make([]byte, 0, 1<<20), 1<<24)
 			sc.Split(bmp.SplitBMP)
 			type peerState struct {
-				opt      *bgp.MarshallingOption // from the OPENs of the Peer Up
-				up       bool
-				pre      dbView
-				post     dbView
-				ups      int
-				downs    int
+				opt   *bgp.MarshallingOption // from the OPENs of the Peer Up
+				up    bool
+				pre   dbView
+				post  dbView
+				ups   int
+				downs int
 			}
 			peers := map[string]*peerState{}
 			ps := func(a string) *peerState {
